@@ -112,11 +112,13 @@ func HandleInvite(ctx context.Context, input HandleInviteInput) (PDU, error) {
 		return nil, spec.Forbidden("The invite must be signed by the server it originated on")
 	}
 
-	signedEvent := input.InviteEvent.Sign(
-		string(input.InvitedUser.Domain()), input.KeyID, input.PrivateKey,
-	)
+	// The counter-signature says that this server has received and accepted the invite: it is
+	// made only once the remaining checks have passed (Sign writes into the event it is given).
+	sign := func(event PDU) PDU {
+		return event.Sign(string(input.InvitedUser.Domain()), input.KeyID, input.PrivateKey)
+	}
 
-	return handleInviteCommonChecks(ctx, input, signedEvent, *sender)
+	return handleInviteCommonChecks(ctx, input, input.InviteEvent, *sender, sign)
 }
 
 func HandleInviteV3(ctx context.Context, input HandleInviteV3Input) (PDU, error) {
@@ -178,10 +180,10 @@ func HandleInviteV3(ctx context.Context, input HandleInviteV3Input) (PDU, error)
 		return nil, spec.InternalServerError{}
 	}
 
-	return handleInviteCommonChecks(ctx, input.HandleInviteInput, fullEvent, spec.UserID{})
+	return handleInviteCommonChecks(ctx, input.HandleInviteInput, fullEvent, spec.UserID{}, nil)
 }
 
-func handleInviteCommonChecks(ctx context.Context, input HandleInviteInput, event PDU, sender spec.UserID) (PDU, error) {
+func handleInviteCommonChecks(ctx context.Context, input HandleInviteInput, event PDU, sender spec.UserID, sign func(PDU) PDU) (PDU, error) {
 	isKnownRoom, err := input.RoomQuerier.IsKnownRoom(ctx, input.RoomID)
 	if err != nil {
 		util.GetLogger(ctx).WithError(err).Error("failed querying known room")
@@ -212,6 +214,10 @@ func handleInviteCommonChecks(ctx context.Context, input HandleInviteInput, even
 		if err != nil {
 			return nil, err
 		}
+	}
+
+	if sign != nil {
+		event = sign(event)
 	}
 
 	err = setUnsignedFieldForInvite(event, inviteState)
